@@ -519,6 +519,18 @@ def tie(ctx):
                             if any(m[1].startswith("del") and "ins" not in m[1] and len(m[1]) > 4 for m in sim.copy_variants(ga, a, mi))]
                 if with_del:
                     copies = [r.choice(with_del), copies[1]]
+            # an indel closer than 15 bases to the end of the stretch the reads tile cannot be placed by the realigner (the
+            # reference aldy hands it is N-padded beyond the locus; same limit as in the C01 simulator) - and which end of
+            # the locus that is depends on the strand: such alleles are not planted
+            import c01
+            if not all(c01.flanked(g_, a_, mi_) for g_ in genes for a_, mi_ in copies):
+                stats["pipeline_repicked_indel_at_locus_edge"] += 1
+                okc = [(a_, mi_) for a_ in majors for mi_ in sorted(ga.alleles[a_].minors) if all(c01.flanked(g_, a_, mi_) for g_ in genes)]
+                oki = [c_ for c_ in okc if any(m[1][:3] in ("ins", "del") for m in sim.copy_variants(ga, *c_))]
+                if not okc:
+                    stats["pipeline_skipped_indel_at_locus_edge"] += 1
+                    continue
+                copies = [r.choice(oki)] * 2 if (oki and k % 2 == 0) else [r.choice(oki or okc), r.choice(okc)]
             outs = []
             prof_a = sim.simulate_reads(genes[0], [("1", "1.001"), ("1", "1.001")], depth=12)
             smp_a = sim.simulate_reads(genes[0], copies, depth=12)
